@@ -542,6 +542,13 @@ def run(ctx: Ctx, rep: Report, tier: str) -> None:  # noqa: C901
     _token_gates(ctx, rep, self_reach(pi), sorted(set(need)))
 
     renderer_falls_back(ctx, rep)
+    # R09.11 a platform switch re-reads text rendered under the NEW platform's tables (C02 R02.8): text rendered before the
+    # switch carries the old platform's names, which the new platform's table may not have
+    from .c02 import render_after_switch
+
+    sub28 = Report("C09")
+    render_after_switch(ctx, sub28)
+    rep.absorb(sub28, "R09.11")
     # ---------------------------------------------------------------- R09.7 switches are render-only
     rep.rule("R09.7")
     _r09_7(ctx, rep)
